@@ -20,7 +20,7 @@ RULE = ('optional keywords {$TIMESTEP, TIMETICKS, $BTIM, $ETIM, $DATE, $PnV, $Pn
         'each absent / well-formed (every accepted format) / ill-formed (non-numeric, wrong field count, out-of-range '
         'fields, blank) x time channel {absent, Time, TIME, time, two} x version; quick = random covering draws, thorough = '
         'more draws; non-trivial = at least one ill-formed keyword or a vendor fallback in play; distinct = digest(file)')
-ASSUMPTIONS = ['dates are generated unambiguous (two-digit fields > 31 where formats could collide)',
+ASSUMPTIONS = ['a two-digit-year date that fits both dd-mmm-yy and yy-mmm-dd is read as the standard dd-mmm-yy; nonstandard yy-mmm-dd dates are generated with yy > 31',
                'unparseable $TIMESTEP: absent time step or the legacy TIMETICKS value are both accepted',
                '1/60 s fractions compared within 1 microsecond', 'zero-event files with a time channel: duration not judged']
 MIN_CHECKS = {'quick': 12000, 'thorough': 300000}
@@ -55,7 +55,9 @@ def gen_date(rng):
         return None, None, 'absent'
     d, mo = int(rng.integers(1, 29)), int(rng.integers(0, 12))
     if r < 0.4:
-        yy = int(rng.integers(32, 100))
+        # the standard FCS2.0 form; also with a year <= 31, where the text would fit the nonstandard yy-mmm-dd form as well:
+        # the standard reading is the documented one (standard formats are tried first), whatever was loaded before
+        yy = int(rng.integers(0, 100))
         return '%02d-%s-%02d' % (d, MON[mo], yy), datetime.date(1900 + yy if yy >= 69 else 2000 + yy, mo + 1, d), 'dd-mmm-yy'
     if r < 0.55:
         y = int(rng.integers(1990, 2031))
